@@ -994,23 +994,34 @@ func (w *vfWorld) project(i int) map[string]any {
 		regs = append(regs, sid)
 	}
 	m["reg"] = regs
-	// harness-known stream objects (registered or not)
+	// stream objects: the registered one for each id, else the one the harness knows
+	objs := map[int]*Stream{}
+	for sid, so := range e.streams {
+		objs[sid] = so
+	}
+	for sid, so := range a.streams {
+		objs[int(sid)] = so
+	}
 	hs := []int{}
-	for sid := range e.streams {
+	for sid := range objs {
 		hs = append(hs, sid)
 	}
 	sort.Ints(hs)
 	sts := []any{}
 	for _, sid := range hs {
-		s := e.streams[sid]
+		s := objs[sid]
 		s.lock.RLock()
+		_, isReg := a.streams[uint16(sid)]
 		sts = append(sts, map[string]any{"sid": sid, "ba": int(s.bufferedAmount), "rb": s.reassemblyQueue.getNumBytes(),
 			"ssn": int(s.sequenceNumber), "omid": int(s.nextOrderedMID), "umid": int(s.nextUnorderedMID),
 			"state": s.state.String(), "rerr": vfErrClass(s.readErr), "readable": s.reassemblyQueue.isReadable(),
-			"rssn": int(s.reassemblyQueue.nextSSN), "rmid": int(s.reassemblyQueue.nextMID)})
+			"rssn": int(s.reassemblyQueue.nextSSN), "rmid": int(int32(s.reassemblyQueue.nextMID)), "reg": isReg,
+			"known": e.streams[sid] == s})
 		s.lock.RUnlock()
 	}
 	m["streams"] = sts
+	m["nt3"] = int(a.stats.getNumT3Timeouts())
+	m["nfast"] = int(a.stats.getNumFastRetrans())
 	m["timers"] = map[string]any{"t1i": a.t1Init.isRunning(), "t1c": a.t1Cookie.isRunning(), "t2": a.t2Shutdown.isRunning(),
 		"t3": a.t3RTX.isRunning(), "trc": a.tReconfig.isRunning(), "ack": a.ackTimer.isRunning()}
 	m["rto"] = int(a.rtoMgr.getRTO())
